@@ -280,6 +280,33 @@ func init() {
 						}
 					}
 				}
+				// lookups of things the bundle does not contain must be refused, not answered
+				{
+					absentPkg, _ := sourceaddrs.ParseRemotePackage("git::https://example.com/absent-from-every-manifest.git")
+					if lp, err := b.LocalPathForRemoteSource(absentPkg.SourceAddr("m")); err == nil {
+						fail("lookup of a package the bundle does not contain is answered with " + lp)
+					}
+					qs = append(qs, "lr~"+X(absentPkg.String())+"~"+X("m"))
+					answers = append(answers, "err")
+					absentReg, _ := sourceaddrs.ParseRegistrySource("example.com/absent/everywhere/aws")
+					v999, _ := versions.ParseVersion("999.0.0")
+					if lp, err := b.LocalPathForRegistrySource(absentReg, v999); err == nil {
+						fail("lookup of a registry package the bundle does not contain is answered with " + lp)
+					}
+					qs = append(qs, "lg~"+X(absentReg.Package().String())+"~"+X("999.0.0")+"~"+X(""))
+					answers = append(answers, "err")
+					for _, rp := range b.RegistryPackages() {
+						rs, perr := sourceaddrs.ParseRegistrySource(rp.String())
+						if perr != nil {
+							continue
+						}
+						if lp, err := b.LocalPathForRegistrySource(rs, v999); err == nil {
+							fail(fmt.Sprintf("lookup of version 999.0.0 of %s, which the bundle does not contain, is answered with %s", rp, lp))
+						}
+						qs = append(qs, "lg~"+X(rp.String())+"~"+X("999.0.0")+"~"+X(""))
+						answers = append(answers, "err")
+					}
+				}
 				for _, rp := range b.RegistryPackages() {
 					for _, v := range b.RegistryPackageVersions(rp) {
 						for _, sub := range []string{"", "k"} {
